@@ -128,7 +128,7 @@ func c21GenBackup(r *core.Rand, sc *c21Scenario, rowsSoFar int) c21Op {
 			op.Parks = append(op.Parks, r.Intn(2*rowsSoFar+6))
 		}
 	}
-	op.Hold = r.Range(1, 4)
+	op.Hold = r.Range(1, 5)
 	op.TimeoutS = []int{3, 10, 40}[r.Intn(3)]
 	return op
 }
@@ -137,7 +137,7 @@ func c21Gen(r *core.Rand, tier string) any {
 	sc := &c21Scenario{Seed: r.Uint64()}
 	sc.Clients = r.Range(1, 3)
 	sc.Preload = r.Range(5, 50)
-	sc.PadMax = []int{40, 120, 250}[r.Intn(3)]
+	sc.PadMax = []int{60, 400, 1200}[r.Intn(3)]
 	sc.Tick = []float64{0.02, 0.08, 0.2}[r.Intn(3)]
 	if r.Bool(0.3) {
 		sc.Split = 0.05
@@ -167,8 +167,22 @@ func c21Gen(r *core.Rand, tier string) any {
 			sc.Ops = append(sc.Ops, c21Op{Kind: "snap", Node: r.Intn(4), Gap: r.Intn(5)})
 		case x < 86:
 			if nb < 10 {
-				sc.Ops = append(sc.Ops, c21GenBackup(r, sc, rows))
+				bo := c21GenBackup(r, sc, rows)
+				sc.Ops = append(sc.Ops, bo)
 				nb++
+				if len(bo.Parks) > 0 && r.Bool(0.5) {
+					// make sure something happens while the copy is parked: writes,
+					// then a snapshot (checkpoint of the WAL into the database file)
+					for k, nw := 0, r.Range(1, 3); k < nw; k++ {
+						sc.Ops = append(sc.Ops, c21Op{Kind: "w", Client: r.Intn(sc.Clients), Node: r.Intn(4), Gap: r.Range(3, 10)})
+						rows++
+					}
+					sc.Ops = append(sc.Ops, c21Op{Kind: "snap", Node: bo.Node, Gap: r.Intn(5)})
+					if r.Bool(0.5) {
+						sc.Ops = append(sc.Ops, c21Op{Kind: "w", Client: r.Intn(sc.Clients), Node: r.Intn(4), Gap: r.Range(3, 10)})
+						rows++
+					}
+				}
 			}
 		case x < 89:
 			if sweeps < 1 {
